@@ -1,4 +1,5 @@
 import Proofs.RegistryTyped
+import Proofs.RegistryTrace
 /-
   C07 — A Plenc instance may be used from any number of goroutines at once:
   every concurrent Marshal, Unmarshal and CodecForType call returns exactly what
@@ -22,6 +23,12 @@ import Proofs.RegistryTyped
     returned codec unfolds, to every depth, to the unfolding of the type graph,
     hence to the same tree as the codec a goroutine running alone gets;
     `results_are_requests` ties the recorded call types to the requests.
+
+  * `trace_replay_reach`, `trace_replay_sound`: a trace of shared-registry
+    accesses recorded from the real implementation that `Registry.conform` can
+    follow is an execution of this transition system, so (I1), the absence of
+    faults and the shape of every result hold of the model states the real run
+    went through (this is the statement behind the `regtrace` correspondence op).
 
   Not proved (see the end of the file): agreement of the outcome (error or
   codec) with the sequential run, termination.  Marshal/Unmarshal themselves
@@ -265,6 +272,56 @@ example : (runSchedule (init abGraph [[3]]) (List.replicate 38 0)).map
     (fun s => ((s.threads 0).results, unfoldC s.heap 4 2)) =
     some ([(3, some 2)], .ptr (.struct 0 [.ptr (.struct 1 [.cut])])) := by
   rfl
+
+/-! ### recorded traces -/
+
+/-- a recorded trace that the model follows is an execution of the protocol. -/
+theorem trace_replay_reach {nodes : List TNode} {pre : List Nat} {rq : List (List Nat)}
+    {fuel : Nat} {evs : List (Nat × Ev)} {s' : State} (n : Nat)
+    (h : conform fuel (startState nodes pre rq fuel) evs 0 = .ok s') :
+    Reach (init (graphOf nodes) (pre :: rq)) (finish fuel s' n) :=
+  replay_reach n h
+
+/-- … hence everything above holds at the end of the replay (and, by the same
+argument, after every prefix of the trace): the shared registry only holds
+complete codecs, no goroutine has read an incomplete node, and every codec
+returned for a type unfolds to that type. -/
+theorem trace_replay_sound {nodes : List TNode} {pre : List Nat} {rq : List (List Nat)}
+    {fuel : Nat} {evs : List (Nat × Ev)} {s' : State} (n : Nat)
+    (h : conform fuel (startState nodes pre rq fuel) evs 0 = .ok s') :
+    let sf := finish fuel s' n
+    (∀ ty c, (ty, c) ∈ sf.registry → ∀ x, RF sf.heap c x → x < sf.heap.length ∧ okAt sf.heap x = true) ∧
+    (∀ i, (sf.threads i).fault = false) ∧
+    (∀ i τ c, (τ, some c) ∈ (sf.threads i).results →
+      ∀ m, unfoldC sf.heap m c = unfoldT (graphOf nodes) m τ) := by
+  intro sf
+  have hr : Reach (init (graphOf nodes) (pre :: rq)) sf := replay_reach n h
+  exact ⟨published_complete hr, fun i => (use_never_sees_incomplete hr i).2.2,
+    fun i τ c hc m => result_shape hr hc m⟩
+
+/-- each recorded event is performed as the model's own next shared access of
+that goroutine (after the Go map iteration order of `publish()` is fixed). -/
+theorem trace_event_is_model_step {fuel : Nat} {s s' : State} {i : Nat} {e : Ev}
+    (h : doEvent fuel s i e = .ok s') :
+    sharedNext ((reorderFor (advance fuel s i) i e).threads i) = some e ∧
+    stepThread (reorderFor (advance fuel s i) i e) i = some s' :=
+  doEvent_event h
+
+/-- non-vacuity: the mutually recursive pair `A{*B}`, `B{*A}` (types 0, 1; `*B`
+= 2, `*A` = 3), goroutine 1 asks for `A`, goroutine 2 for `*A`; the trace below
+(goroutine 2 looks `*A` and `A` up while goroutine 1 is in the middle of
+building `A`, and builds its own copy; goroutine 1's `publish()` hands over `*B`
+before `B`, not in insertion order) is followed to the end; all four types end
+up in the shared registry. -/
+example :
+    (match conform 1000 (startState [.struct [2], .struct [3], .ptr 1, .ptr 0] [] [[0], [3]] 1000)
+        [(1, .load 0), (1, .load 2), (2, .load 3), (2, .load 0), (1, .load 1), (2, .load 2),
+         (2, .load 1), (1, .load 3), (1, .store 3), (2, .load 3), (1, .store 2), (2, .store 1),
+         (1, .store 1), (2, .store 2), (2, .store 0), (2, .store 3), (1, .store 0)] 0 with
+     | .ok s => some ((finish 1000 s 3).keys, ((finish 1000 s 3).threads 1).results.map (·.2.isSome),
+                      ((finish 1000 s 3).threads 2).results.map (·.2.isSome))
+     | .error _ => none) = some ([3, 2, 1, 0], [true], [true]) := by
+  decide +kernel
 
 /-
   NOT PROVED:
